@@ -33,7 +33,7 @@ using namespace vf;
 
 enum Kind { X_NONE = 0, X_ALLOC /* a slot, b form (0 new,1 new[],2 new nothrow,3 new[] nothrow,4 malloc), c size */, X_FREE /* a slot */, X_REALLOC /* a slot, c size */,
             X_SEND /* a slot, b target thread */, X_RECV, X_YIELD,
-            X_MISUSE /* a kind: 0 overrun a guard byte then release, 1 release a foreign pointer, 2 release through the wrong family; b form; c size */, X_COUNT };
+            X_MISUSE /* a kind: 0 overrun a guard byte then release, 1 release a foreign pointer, 2 release through the wrong family, 3-5 the same three through realloc; b form; c size */, X_COUNT };
 static const char* const kNames[X_COUNT] = { "none", "alloc", "free", "realloc", "send", "recv", "yield", "misuse" };
 static const char* kindName(int k) { return k >= 0 && k < X_COUNT ? kNames[k] : "none"; }
 static int kindFromName(const char* s) { for (int i = 0; i < X_COUNT; i++) if (!strcmp(s, kNames[i])) return i; return X_NONE; }
@@ -326,6 +326,9 @@ public:
                 fired("misuse_under_lock");
                 if (o.a == 0) { int form = (int)(o.b % 5); size_t n = (size_t)o.c; char* p = (char*)acquire(form, n, 55); p[n] = 'X'; Held h; h.p = p; h.form = form; h.size = n; release(h); }   // overrun, then release: corruption report
                 else if (o.a == 1) { char* notHeap = foreignAddress(); Held h; h.p = notHeap;     /* a fixed address: a static's address moves with ASLR and with it the bucket it hashes to */ h.form = (int)(o.b % 5); h.size = 1; release(h); }                                                  // foreign pointer: non-allocated report
+                else if (o.a == 3) { cpputest_realloc_location(foreignAddress(), (size_t)o.c, "thr.c", 9); }                  // realloc of a foreign pointer
+                else if (o.a == 4) { char* p = (char*)acquire(0, 8, 57); cpputest_realloc_location(p, 16, "thr.c", 10); }       // realloc of a block that came from new
+                else if (o.a == 5) { size_t n = (size_t)o.c; char* p = (char*)acquire(4, n, 58); p[n] = 'X'; cpputest_realloc_location(p, n + 8, "thr.c", 11); }   // overrun, then realloc
                 else { char* p = (char*)acquire(0, 8, 56); Held h; h.p = p; h.form = 4; h.size = 8; release(h); }                                                                          // new / free mismatch
             }
         }
@@ -370,11 +373,12 @@ struct Engine : public vf::Engine {
         d.p["preempt_den"] = dens[w.below(7)]; d.p["bias_lock"] = w.chance(1, 4);
         if (w.chance(1, 4)) { d.p["few_points"] = w.range(1, 4); static const int spans[] = { 200, 1000, 4000, 12000 }; d.p["few_span"] = spans[w.below(4)]; d.p["bias_lock"] = 0; }      // long uninterrupted stretches with 1-4 preemptions
         d.p["misuse"] = misuse; if (misuse) d.p["junit_out"] = w.chance(1, 2);
+        d.p["save_restore"] = w.chance(1, 4);      // the overloads are saved+disabled and restored once after thread-safe mode was switched on (the documented bracket for untracked code)
         if (misuse) {
             Group T; T.tag = "test";
             int n = (int)w.range(0, 6);
             for (int i = 0; i < n; i++) { Op o; o.kind = w.chance(1, 2) ? X_ALLOC : X_FREE; o.a = (int64_t)w.below(4); o.b = (int64_t)w.below(5); o.c = w.range(1, 40); T.ops.push_back(o); }
-            Op m; m.kind = X_MISUSE; m.a = (int64_t)w.below(3); m.b = (int64_t)w.below(5); m.c = w.range(1, 40); T.ops.insert(T.ops.begin() + (long)w.below(T.ops.size() + 1), m);
+            Op m; m.kind = X_MISUSE; m.a = (int64_t)w.below(6); m.b = (int64_t)w.below(5); m.c = w.range(1, 40); T.ops.insert(T.ops.begin() + (long)w.below(T.ops.size() + 1), m);
             d.groups.push_back(T);
         }
         for (int t = 0; t < nThreads; t++) {
@@ -409,6 +413,7 @@ struct Engine : public vf::Engine {
         else { det = new (::malloc(sizeof(MemoryLeakDetector))) MemoryLeakDetector(&rep); MemoryLeakWarningPlugin::setGlobalDetector(det, &rep); }
         det->enable(); if (misuse) det->startChecking();
         MemoryLeakWarningPlugin::turnOnThreadSafeNewDeleteOverloads();      // before the threads start, as the property says
+        if (d.pi("save_restore")) { MemoryLeakWarningPlugin::saveAndDisableNewDeleteOverloads(); MemoryLeakWarningPlugin::restoreNewDeleteOverloads(); fired("overloads_saved_and_restored"); }
 
         // reset the simulator
         S.n = (int)scripts.size() + 1; S.rng.reseed(mix64(d.seed, 4242)); S.preemptNum = 1; S.preemptDen = (unsigned)d.pi("preempt_den", 8); S.biasLock = d.pi("bias_lock") != 0;
